@@ -58,6 +58,11 @@ func (w *walker) step(e Ev) {
 		if e.Svc == "ConnReq" && e.Err != "" && (w.ph == phReconnecting || w.ph == phConnected) {
 			w.terminate(e.T, "connect request could not be sent")
 		}
+		// a connect request from a connected client: it has given the connection up for a reason of its own (a failed
+		// heartbeat); whether it was right to is C09's subject, from here on it is reconnecting
+		if e.Svc == "ConnReq" && e.Err == "" && w.ph == phConnected {
+			w.endEpoch(e.T)
+		}
 	case "conn<":
 		if e.Err != "" {
 			w.terminate(e.T, "connect failed: "+e.Err)
